@@ -5,7 +5,8 @@ import gfapy
 
 EXTRA = {
     "gfa1": ["S\tE\tACGT\tab:J:{\"k\": [1, {\"z\": 2}]}\tcd:B:i,1,2\tef:H:0A\tgh:Z:s", "H\txx:i:1", "H\txx:i:2", "H\tjj:J:[1]"],
-    "gfa2": ["S\tE\t4\tACGT\tab:J:{\"k\": [1, {\"z\": 2}]}\tcd:B:i,1,2\tef:H:0A\tgh:Z:s", "H\txx:i:1", "H\txx:i:2", "H\tjj:J:[1]", "X\tq\tw\tab:J:[[1]]"],
+    "gfa2": ["S\tE\t4\tACGT\tab:J:{\"k\": [1, {\"z\": 2}]}\tcd:B:i,1,2\tef:H:0A\tgh:Z:s", "H\txx:i:1", "H\txx:i:2", "H\tjj:J:[1]", "X\tq\tw\tab:J:[[1]]",
+             "Z\t" + "\t".join("v%d" % k for k in range(1, 13)) + "\tab:Z:tag"],          # a custom record with more than nine positional fields
 }
 
 
